@@ -190,6 +190,8 @@ def main(argv: Optional[List[str]] = None) -> int:
         got = m["counters"].get(name, 0)
         if got < floor:
             inconclusive.append(f"coverage floor missed: {name}={got} < {floor}")
+        elif os.environ.get("VERIF_MARGINS") and got < 1.3 * floor:
+            print(f"MARGIN property={prop} tier={args.tier} seed={args.seed} {name}={got} floor={floor} (less than 30% above the floor)")
 
     known_hits: Dict[str, int] = {}
     violations: List[Dict[str, Any]] = []
